@@ -142,6 +142,7 @@ type c22Scn struct {
 	clears    int
 	epochIdx  map[string]int
 	log       []c22Change // changes of the current epoch
+	oldLogs   map[int][]c22Change // changes of the epochs before a clear (by epoch index)
 	// reference client
 	cmap      map[int]uint64
 	phase     string // fresh | pages | stream | live | told-unrecoverable | told-insufficient | told-permission
@@ -156,6 +157,8 @@ type c22Scn struct {
 	rchk   []string
 	nWin           int
 	noWindows      bool
+	forceG1        []c22W // corpus: exactly these writer operations right before the transition's stream read
+	winClear       bool   // a clear happened inside a request window
 	falseRecovered bool
 	sawTrim, sawErr, sawPages, sawStream, sawRecover bool
 }
@@ -376,6 +379,10 @@ func (s *c22Scn) doW(w c22W, inGate bool) string {
 		if err := s.e.mb.Clear(ctx, s.ch, MapClearOptions{}); err != nil {
 			s.bad = "clear: " + err.Error()
 		}
+		if s.oldLogs == nil {
+			s.oldLogs = map[int][]c22Change{}
+		}
+		s.oldLogs[s.clears] = s.log
 		s.clears++
 		s.log = nil
 		s.jev = append(s.jev, "  clear")
@@ -451,14 +458,23 @@ func (s *c22Scn) doRequest() {
 	}
 	// writer operations inside the windows of this request (they only happen if the code path opens the window)
 	var g0, g1, g2 []string
-	arm := func(dst *[]string, n int) func() {
+	// A clear (new epoch) may land inside a window too. In the window after the stream read nothing follows
+	// a clear: publications of a NEW epoch buffered next to an accepted read of the old one are outside
+	// the model (its buffer only holds same-epoch publications).
+	arm := func(dst *[]string, n int, afterRead, tailClear bool) func() {
 		return func() {
 			for j := 0; j < n; j++ {
 				w := s.genW()
-				if w.kind == "clear" {
-					w = c22W{"pub", s.r.Intn(c22K)}
+				if tailClear && j == n-1 {
+					w = c22W{"clear", 0}
 				}
 				*dst = append(*dst, s.doW(w, true))
+				if w.kind == "clear" {
+					s.winClear = true
+					if afterRead {
+						break
+					}
+				}
 			}
 		}
 	}
@@ -476,15 +492,33 @@ func (s *c22Scn) doRequest() {
 		}
 	}
 	n0, n1, n2 := pick(), pick(), pick()
+	// a clear as the LAST thing before a read leaves the channel absent at the read: the broker then answers
+	// from a freshly created stream, only the node can notice the new epoch
+	tail0 := n0 > 0 && s.r.Intn(8) == 0
+	tail1 := !s.noWindows && s.r.Intn(10) == 0
+	if tail1 && n1 == 0 {
+		n1 = 1 + s.r.Intn(2)
+	}
 	s.e.mb.mu.Lock()
 	if req.Phase == MapPhaseState && n0 > 0 {
-		s.e.mb.g0[s.ch] = arm(&g0, n0)
+		s.e.mb.g0[s.ch] = arm(&g0, n0, false, tail0)
 	}
 	if n1 > 0 {
-		s.e.mb.g1[s.ch] = arm(&g1, n1)
+		s.e.mb.g1[s.ch] = arm(&g1, n1, false, tail1)
 	}
 	if n2 > 0 {
-		s.e.mb.g2[s.ch] = arm(&g2, n2)
+		s.e.mb.g2[s.ch] = arm(&g2, n2, true, false)
+	}
+	if ops := s.forceG1; ops != nil {
+		s.forceG1 = nil
+		s.e.mb.g1[s.ch] = func() {
+			for _, w := range ops {
+				g1 = append(g1, s.doW(w, true))
+				if w.kind == "clear" {
+					s.winClear = true
+				}
+			}
+		}
 	}
 	s.e.mb.mu.Unlock()
 	s.jev = append(s.jev, fmt.Sprintf("request phase=%d cursor=%q off=%d recover=%v", req.Phase, req.Cursor, req.Offset, req.Recover))
@@ -579,8 +613,13 @@ func (s *c22Scn) doRequest() {
 		if res.Recovered {
 			// everything visible after the position the client gave must have been delivered
 			var exp []string
-			if fromKnown && s.epoch(res.Epoch) == s.clears {
-				for _, c := range s.log {
+			// (the epoch of the reply may already be a past one: a clear after the transition's stream read)
+			if idx := s.epoch(res.Epoch); fromKnown && (idx == s.clears || s.oldLogs[idx] != nil) {
+				elog := s.log
+				if idx != s.clears {
+					elog = s.oldLogs[idx]
+				}
+				for _, c := range elog {
 					if c.Off > fromOff && c.Off <= res.Offset && s.vis[c.Key] {
 						exp = append(exp, c22CoqPub(c.Off, c.Key, c.Val))
 					}
@@ -775,18 +814,62 @@ func TestVerifC22(t *testing.T) {
 				s.vis[k] = true
 			}
 			forced = []string{"pub0", "req", "drop", "pub1", "pub0", "expire-stream", "req", "check"}
+		case 2: // corpus: the channel is cleared between the state read and the stream read of one state->live request
+			s.size, s.limit = 100, 100
+			e.mu.Lock()
+			e.mapOpts[s.ch] = MapChannelOptions{Mode: MapModeRecoverable, KeyTTL: 600 * time.Second, MinPageSize: 1, StreamSize: 100}
+			e.mu.Unlock()
+			s.filter = false
+			for k := range s.vis {
+				s.vis[k] = true
+			}
+			forced = []string{"pub0", "pub1", "pub2", "req-clear-before-stream-read", "check", "req", "check"}
+		case 3: // corpus: same, the last page of a paginated state phase
+			s.size, s.limit = 100, 2
+			e.mu.Lock()
+			e.mapOpts[s.ch] = MapChannelOptions{Mode: MapModeRecoverable, KeyTTL: 600 * time.Second, MinPageSize: 1, StreamSize: 100}
+			e.mu.Unlock()
+			s.filter = false
+			for k := range s.vis {
+				s.vis[k] = true
+			}
+			forced = []string{"pub0", "pub1", "pub2", "req", "req-clear-before-stream-read", "check", "req", "req", "check"}
+		case 4: // corpus: the channel is cleared while the client pages through the stream, the new epoch then grows past its offset
+			s.size, s.limit = 100, 1
+			e.mu.Lock()
+			e.mapOpts[s.ch] = MapChannelOptions{Mode: MapModeRecoverable, KeyTTL: 600 * time.Second, MinPageSize: 1, StreamSize: 100}
+			e.mu.Unlock()
+			s.filter = false
+			for k := range s.vis {
+				s.vis[k] = true
+			}
+			forced = []string{"pub0", "pub1", "pub2", "pub3", "pub4", "pub5", "req"}
+			for j := 0; j < 10; j++ {
+				forced = append(forced, "pub0")
+			}
+			forced = append(forced, "req", "req", "req", "req", "req", "req", "clear", "req")
+			for j := 0; j < 16; j++ {
+				forced = append(forced, "pub1")
+			}
+			for j := 0; j < 12; j++ {
+				forced = append(forced, "req")
+			}
+			forced = append(forced, "check")
 		}
 		if forced != nil {
 			for _, f := range forced {
 				switch {
 				case f == "req":
 					s.doRequestPlain()
+				case f == "req-clear-before-stream-read":
+					s.forceG1 = []c22W{{"clear", 0}}
+					s.doRequestPlain()
 				case f == "drop":
 					s.doDrop()
 				case f == "check":
 					s.doCheck()
-				case f == "expire-stream":
-					s.events = append(s.events, vApp("EvW", s.doW(c22W{"expire-stream", 0}, false)))
+				case f == "expire-stream" || f == "clear":
+					s.events = append(s.events, vApp("EvW", s.doW(c22W{f, 0}, false)))
 					s.obs = append(s.obs, "BNone")
 				default:
 					var k int
@@ -876,6 +959,9 @@ func TestVerifC22(t *testing.T) {
 		if s.nWin > 0 {
 			class += "+windows"
 		}
+		if s.winClear {
+			class += "+clear-in-window"
+		}
 		if s.sawErr {
 			class += "+told"
 		}
@@ -893,6 +979,9 @@ func TestVerifC22(t *testing.T) {
 				}
 				if bok != cok || (bok && bv != cv) {
 					finding = "map-stream-loss-undetected"
+					if s.winClear {
+						finding = "map-clear-inside-request-undetected"
+					}
 				}
 			}
 		}
